@@ -246,7 +246,8 @@ def u_unthreaded(ctx):
         pt.set(C, "split_into_patches", split)
         ctx.ghost.setdefault("loop_ghosts", {})[site] = [ghost]
         ctx.canary()
-        res = call(C.write_patches_unthreaded, "/cache", reader, None, overwrite=ctx.fresh_bool("overwrite"), progress=False)
+        pt.set(C, "Indicator", indicator_stub(ctx, reader, "C09/write_patches_unthreaded"))
+        res = call(C.write_patches_unthreaded, "/cache", reader, None, overwrite=ctx.fresh_bool("overwrite"), progress=ctx.fresh_bool("progress"))
     ctx.check(f"{name}/post:reader_opened_and_closed", reader.entered == 1 and reader.exited == 1)
     if isinstance(res, Raised):
         ctx.cover("fails")
@@ -258,6 +259,14 @@ def u_unthreaded(ctx):
         ctx.check(f"{name}/post:finalised_once_after_all_chunks", And(log["finalized"] == 1, log["processed"] == reader.K))
         j = bv("j")
         ctx.check(f"{name}/post:no_chunk_was_bad", SBool(z3.ForAll([j], z3.Implies(z3.And(j >= 0, j < reader.K.t), z3.Not(bad(j))))) if False else True)
+
+
+def indicator_stub(ctx, reader, name):
+    """contract of the progress indicator (proved transparent in C02/Indicator.__iter__): iterating it iterates the wrapped reader"""
+    def Indicator(iterable, *a, **k):
+        ctx.check(f"{name}/pre@Indicator:wraps_the_reader", iterable is reader)
+        return iterable
+    return Indicator
 
 
 class MP:
@@ -375,7 +384,8 @@ def u_mp(ctx):
         np_stub = types.SimpleNamespace(array_split=lambda chunk, n: ("PARTS", chunk, n))
         pt.set(C, "np", np_stub)
         ctx.canary()
-        res = call(C.write_patches, "/cache", reader, None, overwrite=ctx.fresh_bool("overwrite"), progress=False, max_workers=None)
+        pt.set(C, "Indicator", indicator_stub(ctx, reader, "C09/write_patches"))
+        res = call(C.write_patches, "/cache", reader, None, overwrite=ctx.fresh_bool("overwrite"), progress=ctx.fresh_bool("progress"), max_workers=None)
     ctx.check(f"{name}/post:writer_started_and_joined_once", mp.started == 1 and mp.joined == 1)
     ctx.check(f"{name}/post:pool_has_the_requested_size", mp.pool_size is nw)
     if isinstance(res, Raised):
